@@ -950,75 +950,67 @@ func ruleST2(c *Ctx) *rule {
 	}
 	for _, opt := range []string{"Quiet", "JSON"} {
 		key := fmt.Sprintf("%s Options.%s -> stream=Null", fname(appRun), opt)
-		var branch *ssa.BasicBlock
-		okStore := false
-		for _, b := range appRun.Blocks {
-			iff, ok := lastInstr(b).(*ssa.If)
-			if !ok {
-				continue
+		// on every feasible path on which the option is set, the Null stream is installed before anything reads App.stream
+		readsStream := func(in ssa.Instruction) bool {
+			if v, ok := in.(ssa.Value); ok && fieldKey(v) == "cli/app.App.stream" {
+				for _, ref := range valueReferrers(v) {
+					if st, ok := ref.(*ssa.Store); ok && st.Addr == v {
+						continue
+					}
+					return true
+				}
 			}
-			g := guard{edge{b, 0}, nil, true}
-			g.cond, g.pol = normCond(iff.Cond, true)
-			if c.atomOf(g) != fmt.Sprintf("opt:%s=%v", opt, g.pol) {
-				continue
+			if site, ok := in.(ssa.CallInstruction); ok && !c.storesNullStream(in) {
+				for _, callee := range c.callees(site) {
+					if inModule(callee) && readsTrans(callee) {
+						return true
+					}
+				}
 			}
-			tIdx := 0
-			if !g.pol {
-				tIdx = 1
+			return false
+		}
+		seen := map[string]bool{}
+		bad := ""
+		installs := 0
+		var dfs func(b *ssa.BasicBlock, silenced bool, ps *pathState)
+		dfs = func(b *ssa.BasicBlock, silenced bool, ps *pathState) {
+			if bad != "" {
+				return
 			}
-			// a store of Null() into App.stream in the region dominated by the true edge
-			for _, blk := range appRun.Blocks {
-				if !edgeDominates(edge{b, tIdx}, blk) {
+			k := fmt.Sprintf("%d|%v|%s", b.Index, silenced, ps.key())
+			if seen[k] {
+				return
+			}
+			seen[k] = true
+			for _, in := range b.Instrs {
+				if c.storesNullStream(in) {
+					silenced = true
+					installs++
+				}
+				if !silenced && readsStream(in) {
+					bad = "with --" + strings.ToLower(opt) + " the stream can be used at " + c.ipos(in) + " before it has been replaced by the Null stream"
+					return
+				}
+			}
+			for i, nx := range b.Succs {
+				_, _, next, feasible := ps.branch(b, i)
+				if !feasible {
 					continue
 				}
-				for _, in := range blk.Instrs {
-					if c.storesNullStream(in) {
-						okStore = true
-						branch = b
-					}
-				}
+				dfs(nx, silenced, next.enter(nx, b))
 			}
 		}
-		if !okStore {
-			r.bad(key, c.pos(appRun.Pos()), "no branch on Options."+opt+" replaces App.stream by iostream.Null()")
-			continue
-		}
-		// dominance over every reader
-		bad := ""
-		for _, site := range callSites(appRun) {
-			if site.Block() == branch || edgeDominates(edge{branch, 0}, site.Block()) && c.storesNullStream(site) {
-				continue
-			}
-			for _, callee := range c.callees(site) {
-				if inModule(callee) && readsTrans(callee) {
-					if !dominates(branch, site.Block()) || site.Block() == branch {
-						// the early `return a.initialise()` style calls before the branch: only a problem if they read the stream
-						bad = "the call of " + fname(callee) + " at " + c.ipos(site) + " can use the stream before it is silenced"
-					}
-				}
-			}
-		}
-		for _, b := range appRun.Blocks {
-			for _, in := range b.Instrs {
-				if v, ok := in.(ssa.Value); ok && fieldKey(v) == "cli/app.App.stream" {
-					isRead := false
-					for _, ref := range valueReferrers(v) {
-						if st, ok := ref.(*ssa.Store); ok && st.Addr == v {
-							continue
-						}
-						isRead = true
-					}
-					if isRead && !dominates(branch, b) {
-						bad = "App.stream is read at " + c.ipos(in) + " before it is silenced"
-					}
-				}
-			}
-		}
+		ps := newPathStateFor(appRun)
+		ps.assume["opt:"+opt] = true
+		dfs(appRun.Blocks[0], false, ps)
 		_ = fi
-		if bad == "" {
-			r.ok(key, c.bpos(branch), "silenced before anything can write to the stream")
-		} else {
-			r.bad(key, c.bpos(branch), bad)
+		switch {
+		case bad != "":
+			r.bad(key, c.pos(appRun.Pos()), bad)
+		case installs == 0:
+			r.bad(key, c.pos(appRun.Pos()), "no path with Options."+opt+" set replaces App.stream by iostream.Null()")
+		default:
+			r.ok(key, c.pos(appRun.Pos()), "silenced before anything can write to the stream")
 		}
 	}
 	// no other store into App.stream than the constructor's and Null
@@ -1334,15 +1326,15 @@ func ruleST5(c *Ctx) *rule {
 		Statement: "without task names: on HasTask(\"default\") == true the task named \"default\" is run, on the false edge the task listing is shown",
 		Necessity: "running another task, or listing although a default task exists, is not the documented default action"}
 	c.dispatchRule(r, "default", "")
-	// false edge -> a listing (a range over SpokFile.Tasks whose values reach the stream)
+	// false edge -> a listing (a range over SpokFile.Tasks, or maps.Keys of it, whose values reach the stream)
 	found := false
 	for _, f := range c.ModFuncs {
 		for _, b := range f.Blocks {
 			for _, in := range b.Instrs {
-				rg, ok := in.(*ssa.Range)
-				if !ok || !isFieldLoad(rg.X, "file.SpokFile.Tasks") {
+				if !iteratesWholeMap(in, "file.SpokFile.Tasks") {
 					continue
 				}
+				rg := in
 				cond := c.condsAt(rg)
 				if cond["hastask:default=false"] || c.listingFuncsUnder("hastask:default=false")[f] {
 					found = true
@@ -1569,49 +1561,61 @@ func ruleRT1(c *Ctx) *rule {
 				}
 			}
 		}
+		// alternative to testing Ok() of the result: an unconditional full loop over the result's commands that fails on the first
+		// command that is not Ok (Result.Ok is defined as the conjunction over exactly that collection, see SH1)
+		viaCommands := ""
+		if okCall == nil && full {
+			viaCommands = c.failsOnFirstBadCommand(fi, loop, elem)
+		}
 		switch {
 		case !full:
 			r.bad(pfx+" results-loop", c.bpos(loop.header), "the loop over the results does not cover all of them")
+		case okCall == nil && viaCommands != "":
+			r.bad(pfx+" results-loop", c.bpos(loop.header), "Ok() of each result is not tested unconditionally in the loop over the results, and "+viaCommands)
 		case okCall == nil:
-			r.bad(pfx+" results-loop", c.bpos(loop.header), "Ok() of each result is not tested unconditionally in the loop over the results")
+			r.ok(pfx+" results-loop", c.bpos(loop.header), "full range; every command of every result is examined and the first one that is not Ok ends the call with an error")
 		default:
 			r.ok(pfx+" results-loop", c.bpos(loop.header), "full range with an unconditional Ok() test")
 		}
 		if okCall == nil {
-			continue
+			if viaCommands == "" && full {
+				r.ok(pfx+" not-ok => error", c.bpos(loop.header), "a command that is not Ok ends the call with a non-nil error")
+			}
 		}
-		// (d) the not-Ok side
-		key := pfx + " not-ok => error"
-		verdict := "the result of Ok() is not branched on"
-		for _, ref := range valueReferrers(okCall) {
-			var iff *ssa.If
-			falseIdx := 1
-			switch x := ref.(type) {
-			case *ssa.If:
-				iff = x
-			case *ssa.UnOp:
-				if x.Op == token.NOT {
-					for _, rr := range valueReferrers(x) {
-						if i2, ok := rr.(*ssa.If); ok {
-							iff, falseIdx = i2, 0
+		if okCall != nil {
+			// (d) the not-Ok side
+			key := pfx + " not-ok => error"
+			verdict := "the result of Ok() is not branched on"
+			for _, ref := range valueReferrers(okCall) {
+				var iff *ssa.If
+				falseIdx := 1
+				switch x := ref.(type) {
+				case *ssa.If:
+					iff = x
+				case *ssa.UnOp:
+					if x.Op == token.NOT {
+						for _, rr := range valueReferrers(x) {
+							if i2, ok := rr.(*ssa.If); ok {
+								iff, falseIdx = i2, 0
+							}
 						}
 					}
 				}
+				if iff == nil {
+					continue
+				}
+				e := edge{iff.Block(), falseIdx}
+				if good, _ := c.edgeEndsInError(e); good {
+					verdict = ""
+					break
+				}
+				verdict = c.notOkViaCommandLoop(fi, e, elem)
 			}
-			if iff == nil {
-				continue
+			if verdict == "" {
+				r.ok(key, c.ipos(okCall), "a result that is not Ok ends the call with a non-nil error")
+			} else {
+				r.bad(key, c.ipos(okCall), verdict)
 			}
-			e := edge{iff.Block(), falseIdx}
-			if good, _ := c.edgeEndsInError(e); good {
-				verdict = ""
-				break
-			}
-			verdict = c.notOkViaCommandLoop(fi, e, elem)
-		}
-		if verdict == "" {
-			r.ok(key, c.ipos(okCall), "a result that is not Ok ends the call with a non-nil error")
-		} else {
-			r.bad(key, c.ipos(okCall), verdict)
 		}
 		// (e) success is only returned after every result has been examined: every feasible path from the call to a return
 		// whose error may be nil crosses the exhaustion edge of the results loop
@@ -1676,7 +1680,7 @@ func ruleRT1(c *Ctx) *rule {
 			}
 		}
 		// the error identifies the task
-		key = pfx + " error names task"
+		key := pfx + " error names task"
 		named := false
 		for _, ret := range returnsOf(f) {
 			ev := returnedErr(ret)
@@ -2085,6 +2089,133 @@ func writesToOsStdout(site ssa.CallInstruction) bool {
 			if g, ok := u.X.(*ssa.Global); ok && g.Name() == "Stdout" && g.Pkg != nil && g.Pkg.Pkg.Path() == "os" {
 				return true
 			}
+		}
+	}
+	return false
+}
+
+// failsOnFirstBadCommand: inside the results loop there is an unconditional full-range loop over <elem>.CommandResults in which
+// Ok() of each command is tested unconditionally and the not-Ok side ends in a non-nil error. Returns "" or what is missing.
+func (c *Ctx) failsOnFirstBadCommand(fi *fnInfo, outer *loopInfo, elem ssa.Value) string {
+	f := fi.fn
+	for _, l := range fi.loops {
+		if l == outer || !outer.body[l.header] {
+			continue
+		}
+		// ranges over CommandResults of the element
+		var list ssa.Value
+		var cmdElems []ssa.Value
+		for _, b := range f.Blocks {
+			if !l.body[b] {
+				continue
+			}
+			for _, in := range b.Instrs {
+				if ia, ok := in.(*ssa.IndexAddr); ok {
+					sl := c.newSlicer()
+					sl.depth = 0
+					res := sl.run(ia.X)
+					if res.hasField("task.Result.CommandResults") {
+						list = ia.X
+						cmdElems = append(cmdElems, ia)
+						for _, ref := range valueReferrers(ia) {
+							if u, ok := ref.(*ssa.UnOp); ok && u.Op == token.MUL {
+								cmdElems = append(cmdElems, u)
+							}
+						}
+					}
+				}
+			}
+		}
+		if list == nil {
+			continue
+		}
+		// the inner loop is unconditional within the outer iteration
+		for _, g := range fi.necessaryGuards(l.header) {
+			if outer.body[g.e.from] && g.e.from != outer.header {
+				return "the loop over the commands is only entered under " + condText(g.cond)
+			}
+		}
+		// full range
+		fullInner := false
+		if iff, ok := lastInstr(l.header).(*ssa.If); ok {
+			if bo, ok := iff.Cond.(*ssa.BinOp); ok && bo.Op == token.LSS {
+				if cl, ok := bo.Y.(*ssa.Call); ok {
+					if bi, ok := cl.Call.Value.(*ssa.Builtin); ok && bi.Name() == "len" && cl.Call.Args[0] == list {
+						fullInner = true
+					}
+				}
+			}
+		}
+		if !fullInner {
+			return "the loop over the commands does not cover all of them"
+		}
+		for _, b := range f.Blocks {
+			if !l.body[b] {
+				continue
+			}
+			for _, in := range b.Instrs {
+				cl, ok := in.(*ssa.Call)
+				if !ok {
+					continue
+				}
+				cf := cl.Common().StaticCallee()
+				if cf == nil || cf.Name() != "Ok" || !inModule(cf) {
+					continue
+				}
+				isCmd := false
+				for _, e := range cmdElems {
+					if sameElem(cl.Common().Args[0], e) {
+						isCmd = true
+					}
+				}
+				if !isCmd {
+					continue
+				}
+				for _, g := range fi.necessaryGuards(b) {
+					if l.body[g.e.from] && g.e.from != l.header {
+						return "Ok() of each command is tested only under " + condText(g.cond)
+					}
+				}
+				for _, ref := range valueReferrers(cl) {
+					var iff *ssa.If
+					falseIdx := 1
+					switch x := ref.(type) {
+					case *ssa.If:
+						iff = x
+					case *ssa.UnOp:
+						if x.Op == token.NOT {
+							for _, rr := range valueReferrers(x) {
+								if i2, ok := rr.(*ssa.If); ok {
+									iff, falseIdx = i2, 0
+								}
+							}
+						}
+					}
+					if iff == nil {
+						continue
+					}
+					if good, why := c.edgeEndsInError(edge{iff.Block(), falseIdx}); good {
+						return ""
+					} else {
+						return "a command that is not Ok does not end the call with an error: " + why
+					}
+				}
+			}
+		}
+		return "the loop over the commands never tests Ok() of each command"
+	}
+	return "there is no loop over the result's commands either"
+}
+
+// iteratesWholeMap: the instruction ranges over the map in the given field, or asks for all its keys / values.
+func iteratesWholeMap(in ssa.Instruction, field string) bool {
+	if rg, ok := in.(*ssa.Range); ok {
+		return isFieldLoad(rg.X, field)
+	}
+	if call, ok := in.(*ssa.Call); ok {
+		n := calleeName(call.Common())
+		if strings.Contains(n, "maps.Keys") || strings.Contains(n, "maps.Values") || strings.Contains(n, "maps.All") {
+			return len(call.Common().Args) > 0 && isFieldLoad(call.Common().Args[0], field)
 		}
 	}
 	return false
